@@ -86,7 +86,12 @@ pub fn check_forget(rep: &mut Report, p: &Params, prefix: &[In], suffix_ext: &[I
                 }
             }
             Kind::Cci | Kind::Mfi => {
-                if r.degenerate {
+                if r.near_tie || (r.degenerate && kind == Kind::Cci && !r.exact_neutral) {
+                    // typical prices that tie in exact arithmetic but not necessarily in f64 (bars with equal
+                    // high+low+close whose sums round): either instance may see a tie or a one-ulp move there,
+                    // the outputs are rounding noise over rounding noise and nothing is claimed
+                    rep.count("skipped_ill_conditioned");
+                } else if r.degenerate {
                     // neutral value expected from both
                     cmp.push(("value", (dd(oa.v[0]) - dd(os.v[0])).abs().to_f64(), tq * r.scale, 0.0));
                 } else if r.c[0] <= 1e6 && !(kind == Kind::Mfi && r.c[0] > 1000.0) {
